@@ -625,4 +625,93 @@ theorem iterativeSample_facts {expf : α → α} {nonFinite : α → Bool} {llf 
   · exact absurd trivial hfirst
 
 end Sample
+section Short
+variable {α ρ : Type} [LT α] [DecidableLT α] [Sub α] [Max α]
+
+/-- the loop returns fewer than `req` accepted positions only from the exit "the clamped wish of the growth policy is 0" -/
+theorem loop_short (expf : α → α) (nonFinite : α → Bool) (guard : Bool) (req budget : Nat) (posLL : List α)
+    (grow : Nat → Nat → Nat → Nat → Nat) : ∀ (fuel round : Nat) (uus : List (List α)) (start nProc : Nat)
+    (all : List α) (blocks : List (Nat × Nat)) (lo : LoopOut α),
+    loop expf nonFinite guard req budget posLL grow fuel round uus start nProc all blocks = .ok lo →
+    (goodPos expf lo.all lo.uuLast).length < req →
+    ∃ r, clamp budget lo.evaluated (grow r (goodPos expf lo.all lo.uuLast).length lo.all.length
+      (req - (goodPos expf lo.all lo.uuLast).length)) = 0 := by
+  intro fuel
+  induction fuel with
+  | zero => intro round uus start nProc all blocks lo h; simp [loop] at h
+  | succ fuel ih =>
+    intro round uus start nProc all blocks lo h hshort
+    unfold loop at h
+    dsimp only at h
+    split at h
+    · simp at h
+    · split at h
+      · simp at h
+      · rename_i uu uus'
+        split at h
+        · simp at h
+        · split at h
+          · simp at h
+          · split at h
+            · rename_i hreq
+              simp only [Except.ok.injEq] at h
+              subst h
+              simp only at hshort
+              omega
+            · split at h
+              · rename_i hz
+                simp only [Except.ok.injEq] at h
+                subst h
+                exact ⟨round, hz⟩
+              · exact ih _ _ _ _ _ _ lo h hshort
+
+/-- the same at the level of the whole call: a result with fewer than `n_requested_samples` samples comes only from
+the exit where the clamped wish of the growth policy is 0 -/
+theorem iterativeSample_short {expf : α → α} {nonFinite : α → Bool} {llf : ρ → α} {lib : List (LibRow ρ α)}
+    {c : Cfg} {idx : Option (List Nat)} {grow : Nat → Nat → Nat → Nat → Nat} {uus : List (List α)}
+    {res : Res ρ α} (h : iterativeSample expf nonFinite llf lib c idx grow uus = .ok res)
+    (hshort : res.out.good.length < c.req) :
+    ∃ r, clamp (c.budget lib.length) res.evaluated
+      (grow r (goodPos expf res.out.allLls res.uuLast).length res.out.allLls.length
+        (c.req - (goodPos expf res.out.allLls res.uuLast).length)) = 0 := by
+  have hfacts := iterativeSample_facts h
+  obtain ⟨_, _, _, _, _, _, _, _, _, h10, _⟩ := hfacts
+  unfold iterativeSample at h
+  dsimp only at h
+  split at h
+  · simp at h
+  · split at h
+    · simp at h
+    · rename_i evRows hev
+      split at h
+      · simp at h
+      · rename_i hol
+        split at h
+        · simp at h
+        · rename_i lo hlo
+          split at h
+          · simp at h
+          · rename_i out hout
+            simp only [Except.ok.injEq] at h
+            subst h
+            have hol' : (evalOrder (c.budget lib.length) idx).length = c.budget lib.length := by
+              simpa using hol
+            have hpl : c.budget lib.length ≤ (evRows.map (fun r => llf r.nonlin)).length := by
+              rw [List.length_map, gather_length hev, hol']
+            have hinit : c.initBatch.getD (c.growth * c.req) ≤ c.budget lib.length := by omega
+            obtain ⟨_, _, r3, _⟩ :=
+              loop_spec expf nonFinite c.guard c.req _ _ grow c.maxiter 0 uus 0 _ [] [] lo (by simp)
+                (by simp; omega) hpl (by simp [Tiles]) hlo
+            have hev' := gather_take lib _ lo.evaluated hev
+            have hout' := hout
+            rw [r3, ← List.map_take] at hout'
+            obtain ⟨_, a2, _⟩ := assemble_attached llf hev' hout'
+            have hall : out.allLls = lo.all := by rw [a2, r3, List.map_take]
+            simp only at h10 hshort ⊢
+            rw [hall] at h10 ⊢
+            have hs : (goodPos expf lo.all lo.uuLast).length < c.req := by
+              rw [h10, List.length_take] at hshort; omega
+            exact loop_short expf nonFinite c.guard c.req _ _ grow c.maxiter 0 uus 0 _ [] [] lo hlo hs
+end Short
+
 end Iter
